@@ -56,6 +56,7 @@ type Op struct {
 	P    string `json:"p,omitempty"`
 	Ok   bool   `json:"ok,omitempty"`   // probe outcome
 	Live bool   `json:"live,omitempty"` // liveness instead of readiness probe
+	Late bool   `json:"late,omitempty"` // probe completion delivered although the command is no longer alive
 }
 
 // Step = trigger + op (+ how long a gate-triggered step holds the goroutine).
